@@ -63,6 +63,7 @@ void post(Uring& u, uint64_t user_data, int res) {
   }
   io_uring_cqe& e = c->cqes[c->tail & c->mask];
   e.user_data = user_data; e.res = res; e.flags = 0;
+  k_release(&c->tail);   // the kernel publishes the entry with a release store of the tail
   ++c->tail;
   vmcrt::observed(&c->tail, vmcrt::K_STORE, c->tail, true);
 }
@@ -167,6 +168,7 @@ void progress(Uring& u) {
   }
 }
 void progress_all() {
+  KIgn kign;
   if (g_in_progress) return;
   g_in_progress = true;
   for (auto& u : g_ur) progress(u);
@@ -224,11 +226,13 @@ struct Install { Install() { on_state_change = &progress_all; close_hook = &urin
 }  // namespace
 
 void uring_reset() {
+  KIgn kign;
   for (auto& u : g_ur) { for (auto& r : u.r) if (r.p && r.mapped > r.unmapped) std::free(r.p); u = Uring{}; }
   for (auto& f : g_files) f = File{};
   g_ring_errors.clear();
 }
 std::string uring_leaks() {
+  KIgn kign;
   std::string s = g_ring_errors;
   for (auto& u : g_ur) if (u.live) for (int i = 0; i < 3; ++i) {
     if (u.r[i].mapped > u.r[i].unmapped) s += std::string("io_uring region ") + std::to_string(i) + " still mapped; ";
@@ -237,6 +241,7 @@ std::string uring_leaks() {
 }
 int uring_pending(int fd) { Obj* o = obj(fd); return o && o->kind == URING ? (int)g_ur[o->aux].pending.size() : -1; }
 bool uring_request_points_into(const void* p, size_t n) {
+  KIgn kign;
   for (auto& u : g_ur) if (u.live) for (auto& q : u.pending) {
     const char* a = reinterpret_cast<const char*>(q.user_data);
     if (a >= static_cast<const char*>(p) && a < static_cast<const char*>(p) + n) return true;
@@ -248,6 +253,7 @@ bool uring_request_points_into(const void* p, size_t n) {
   return false;
 }
 int k_open_file(const void* data, size_t n) {
+  KIgn kign;
   for (int i = 0; i < NFILE; ++i) if (!g_files[i].live) {
     g_files[i].live = true; g_files[i].data.assign(static_cast<const unsigned char*>(data), static_cast<const unsigned char*>(data) + n);
     int fd = alloc(FILE_); g_tab[fd - BASE].aux = i;
@@ -255,7 +261,7 @@ int k_open_file(const void* data, size_t n) {
   }
   vmcrt::fail("!", "harness", "ksim: too many files");
 }
-std::string file_contents(int fd) { Obj* o = obj(fd); if (!o || o->kind != FILE_) return "?"; auto& d = g_files[o->aux].data; return std::string(d.begin(), d.end()); }
+std::string file_contents(int fd) { KIgn kign; Obj* o = obj(fd); if (!o || o->kind != FILE_) return "?"; auto& d = g_files[o->aux].data; return std::string(d.begin(), d.end()); }
 }  // namespace ksim
 
 using namespace ksim;
@@ -267,6 +273,7 @@ int io_uring_register(int, unsigned, const void*, unsigned) { errno = ENOSYS; re
 
 int io_uring_setup(unsigned entries, struct io_uring_params* p) {
   if (!ksim::active()) { errno = ENOSYS; return -1; }
+  KIgn kign;
   int ui = -1;
   for (int i = 0; i < NURING; ++i) if (!g_ur[i].live) { ui = i; break; }
   if (ui < 0) vmcrt::fail("!", "harness", "ksim: too many io_urings");
@@ -292,11 +299,13 @@ int io_uring_setup(unsigned entries, struct io_uring_params* p) {
 int io_uring_enter(int fd, unsigned to_submit, unsigned min_complete, unsigned flags, sigset_t*) {
   Obj* o = obj(fd);
   if (!o || o->kind != URING) { errno = EBADF; return -1; }
+  KIgn kign;
   Uring& u = g_ur[o->aux];
   step(o);
   if (!u.r[0].p || !u.r[1].p || !u.r[2].p) { errno = EFAULT; return -1; }
   // consume submissions
   SqRing* sq = u.sq();
+  k_acquire(&sq->tail);    // the kernel reads the submission tail with acquire semantics
   unsigned avail = sq->tail - sq->head, n = std::min(to_submit, avail);
   for (unsigned i = 0; i < n; ++i) {
     unsigned idx = sq->array[sq->head & sq->mask];
@@ -325,6 +334,7 @@ extern "C" {
 void* __wrap_mmap(void* addr, size_t len, int prot, int flags, int fd, off_t off) {
   Obj* o = obj(fd);
   if (!o || o->kind != URING) return __real_mmap(addr, len, prot, flags, fd, off);
+  KIgn kign;
   Uring& u = g_ur[o->aux];
   int ri = (unsigned long long)off == IORING_OFF_SQ_RING ? 0 : (unsigned long long)off == IORING_OFF_CQ_RING ? 1 : (unsigned long long)off == IORING_OFF_SQES ? 2 : -1;
   if (ri < 0 || len > u.r[ri].size || u.r[ri].mapped > u.r[ri].unmapped) { errno = EINVAL; return MAP_FAILED; }
@@ -333,6 +343,7 @@ void* __wrap_mmap(void* addr, size_t len, int prot, int flags, int fd, off_t off
   return u.r[ri].p;
 }
 int __wrap_munmap(void* p, size_t len) {
+  KIgn kign;
   if (ksim::active())
     for (auto& u : g_ur) if (u.live) for (auto& r : u.r) if (r.p == p && r.mapped > r.unmapped) {
       ++r.unmapped;
